@@ -32,10 +32,17 @@ C23 hash-order dependence of expression propagation reaching CWE190.
 Observations that were not turned into findings (outside the stated quantifiers, or no failing input against the real
 code could be shown by the monitors): PopCount/LzCount of a non-singleton 16-byte interval into 1 byte yields an
 ill-formed interval; `new_from_bare_metal` rejects every 64-bit processor id (`>> 64`) and binaries ending exactly at the
-top of the address space; CWE782/CWE426 see only the first of two imports with the same name; the order of duplicated
-blocks (`duplicate_blocks_contained_in_several_subs`) and the merge order of caller values in CWE119's parameter
-substitution iterate hash sets (two independent sub-agents pointed at them; the optimised IR does differ between runs,
-but no difference in the *warning output* was ever observed by C23 in about 120 000 runs).
+top of the address space; CWE782/CWE426 see only the first of two imports with the same name; the merge order of caller
+values in CWE119's parameter substitution iterates a hash set of call sites (for three or more constant offsets every
+fold order of `IntervalDomain::merge` ends in the same value - the third distinct value always exceeds the
+delay-plus-stride threshold - so no order-dependent input could be constructed).
+The order of duplicated blocks (`duplicate_blocks_contained_in_several_subs`, also a hash set) was in this list until an
+adversary sub-agent handed over an input on which the *unchanged* tree printed two different JSON outputs (15/15 of 30
+fresh processes): a function that jumps into two blocks of another function with an unchecked `malloc` result in `RAX`.
+That was a miss of the C23 monitor, not of the code reading: the generator's foreign jumps overwrote `RAX` and its foreign
+blocks never competed for the same warning. The generator now has shared tails that dereference `RAX` and functions that
+leave into two of them right after an allocation; with that the C23 quick tier reported the defect on the pinned tree in
+both of its parts (`output-differs:CWE476`, `inprocess:output-differs:CWE476`), and it was repaired (`0145e12`, §11.3).
 
 '''
 open('DESIGN.md', 'w').write(s[:a] + new113 + new114 + s[b:])
